@@ -250,18 +250,15 @@ def gen_reply_table(rng, prog, n_names=None, force_modes=None):
     for nm in names:
         cover = rng.choice(["s", "e", "se", "se", "a"])
         c = rng.random()
-        mixed = False
         if c < 0.3:
             sig = "raw"
         elif c < 0.42 and cover == "se":
-            # both methods take one `Binary` payload, only one of them marks it `sv::payload(raw)`
+            # both methods take one unmarked `Binary` payload (a JSON string on the wire, not raw bytes).  Marking only
+            # one of the two `sv::payload(raw)` is an invalid program since the fix d781708 (vlib/mutants.py: reply-mixed-raw-*)
             sig = [intern_type(prog, T.BINARY)]
-            mixed = True
         else:
             sig = [intern_type(prog, T.random_type(rng)) for _ in range(rng.choice([1, 1, 2, 3]))]
         table["names"][nm] = {"cover": cover, "payload": sig}
-        if mixed:
-            table["names"][nm]["mixed_raw"] = True
     # methods: group names with the same payload signature under shared methods sometimes
     method_names_taken = {h["name"] for h in cpart["handlers"]}
     mcount = 0
@@ -298,19 +295,8 @@ def gen_reply_table(rng, prog, n_names=None, force_modes=None):
     by_sig = {}
     for nm, info in table["names"].items():
         key = "raw" if info["payload"] == "raw" else tuple(info["payload"])
-        if info.get("mixed_raw"):
-            key = ("mixed", nm)
         by_sig.setdefault(key, []).append(nm)
     for key, nms in by_sig.items():
-        if key != "raw" and key[0] == "mixed":
-            nm = key[1]
-            sig = table["names"][nm]["payload"]
-            ms = [new_method("success", [nm], sig), new_method("error", [nm], sig)]
-            marked = rng.choice([0, 1])
-            ms[marked]["raw_mark"] = True
-            for m_ in ms:
-                m_["payload_names"] = ["payload"]
-            continue
         sig = "raw" if key == "raw" else list(key)
         for outcome, letter in (("success", "s"), ("error", "e"), ("always", "a")):
             want = [n for n in nms if letter in table["names"][n]["cover"]]
